@@ -309,6 +309,15 @@ def filertField (l : Layout) (nm : List Char) (fm : Option String) (f : Field) :
   else
     filertAnswer (writeFieldFile AsdfLib.observed l nm fm f) (readFieldFile nm fm) (fun x => .ok x.toDict)
 
+/-- the wire decoder of mode bases: a tree without the key `grid` is a basis without grid (such a basis
+has no dictionary form of its own; the harness sends the `transformation_matrix` / `is_sparse` part) -/
+def decodeBasis (t : Tree) : Except Err ModeBasis :=
+  match t.get .grid with
+  | .ok _ => ModeBasis.fromDict t
+  | .error _ =>
+    let dummy : Grid := ⟨.cartesian, .unstructured [], .null⟩
+    (ModeBasis.fromDict (t.set .grid dummy.toDict)).map fun b => { b with grid := none }
+
 def step (st : St) : List String → St × String
   | ["dict", "gridold", t] =>
     match parseTree? t with
@@ -455,7 +464,7 @@ def step (st : St) : List String → St × String
         | .error e, _ => (st, "err " ++ showErr e)
         | _, none => (st, "bad-op")
       else if what == "basis" then
-        match ModeBasis.fromDict t with
+        match decodeBasis t with
         | .ok b => (st, filertAnswer (writeBasisFile AsdfLib.observed nm fm b) (readBasisFile nm fm)
             ModeBasis.toDict)
         | .error e => (st, "err " ++ showErr e)
